@@ -425,6 +425,25 @@ func (g *Group) nativeBinary(id string) (string, error) {
 	for _, f := range g.Files {
 		repl[filepath.Join(dir, "zz_verif_"+filepath.Base(f))] = filepath.Join(VerifDir, "harness", id, f)
 	}
+	// native counterparts of //verif:stub directives
+	var hfiles []string
+	for _, f := range g.Files {
+		hfiles = append(hfiles, filepath.Join(VerifDir, "harness", id, f))
+	}
+	if stubs := findStubs(hfiles); len(stubs) > 0 {
+		srepl, initSrc, err := nativeStubOverlay(g, id, stubs, wd)
+		if err != nil {
+			return "", err
+		}
+		for k, v := range srepl {
+			repl[k] = v
+		}
+		if initSrc != "" {
+			f := filepath.Join(wd, tag+"_stubinit.go")
+			os.WriteFile(f, []byte(initSrc), 0o644)
+			repl[filepath.Join(dir, "zz_verif_stubinit.go")] = f
+		}
+	}
 	nat := filepath.Join(wd, tag+"_native.go")
 	os.WriteFile(nat, []byte(intrinsicNative(g.PkgName)), 0o644)
 	repl[filepath.Join(dir, "zz_verif_native.go")] = nat
